@@ -156,7 +156,7 @@ pub fn inc<const ID: u16>(v: u32) -> u32 {
 pub fn some_even<const ID: u16>(v: u32) -> Option<u32> {
     z(ID, &v);
     if v % 2 == 0 {
-        Some(v + 10)
+        Some(v.wrapping_add(10))
     } else {
         None
     }
